@@ -7,7 +7,7 @@
    on_message, completion of a coroutine open() (server, c_aopen), write_message. *)
 From Coq Require Import List NArith ZArith Bool.
 Import ListNotations.
-From TV Require Import Lib.Obs C16.Model C16.Spec C16.Run C16.Inv3 C16.Sound C16.Proofs Gen.C16_src Gen.C16_equiv.
+From TV Require Import Lib.Obs C16.Model C16.Spec C16.Run C16.Inv3 C16.Sound C16.Proofs C16.ProofsP4 Gen.C16_src Gen.C16_equiv.
 
 (* The whole property as the online monitor of Spec.v: for every role, ping configuration and
    event list the model's trace is accepted (at most one Close frame, no data frame after it,
@@ -178,6 +178,37 @@ Theorem C16_closing_timer_only_after_ping_cancelled : forall c evs,
   s_wait (fst (final c evs)) = true -> s_ping (fst (final c evs)) = PNone.
 Proof. exact model_one_timer. Qed.
 Print Assumptions C16_closing_timer_only_after_ping_cancelled.
+
+(* Phase 4 -- "tears down the TCP connection once both sides have closed or the closing timeout
+   elapses", for BOTH roles (c arbitrary) and BOTH initiators, every history and every event:
+   if the step of an event takes a Close frame of the peer off the wire then, at the end of that very
+   step, the TCP stream is closed, no closing timeout is armed (the echoing side never arms one, the
+   initiator's is disarmed on receipt of the echo), and our own Close frame is on the wire -- echoed in
+   this step if it had not been sent before. *)
+Theorem C16_close_received_tears_tcp_down_in_the_same_step : forall c evs e,
+  let st := step c e (final c evs) in
+  existsb is_hclose (snd st) = true ->
+  s_sc (fst (fst st)) = true
+  /\ s_wait (fst (fst st)) = false
+  /\ (existsb is_sclose (items_of (run c evs)) = false -> existsb is_sclose (snd st) = true).
+Proof. exact teardown_on_receipt. Qed.
+Print Assumptions C16_close_received_tears_tcp_down_in_the_same_step.
+
+(* the initiating side, any role: while its Close frame is out and the stream is still open, the 5 s
+   closing timeout is armed, it is the only timer, and its expiry closes the stream *)
+Theorem C16_initiator_closes_on_echo_or_closing_timeout : forall c evs,
+  existsb is_sclose (items_of (run c evs)) = true ->
+  s_sc (fst (final c evs)) = false ->
+  s_wait (fst (final c evs)) = true /\ s_ping (fst (final c evs)) = PNone
+  /\ s_sc (fst (final c (evs ++ [ETick]))) = true.
+Proof. exact initiator_waits_with_timer. Qed.
+Print Assumptions C16_initiator_closes_on_echo_or_closing_timeout.
+
+(* once the peer's Close frame has been received ours is on the wire as well *)
+Theorem C16_received_close_implies_own_close_sent : forall c evs,
+  existsb is_hclose (items_of (run c evs)) = true -> existsb is_sclose (items_of (run c evs)) = true.
+Proof. exact received_close_implies_sent. Qed.
+Print Assumptions C16_received_close_implies_own_close_sent.
 
 (* The model's decisions are the ones read from tornado/websocket.py on this run by
    translators/c16_src.py (Gen/C16_src.v): is_closing, the WebSocketClosedError guards of
